@@ -24,7 +24,7 @@
 import IsoDT.Lemmas.ConstructTrunc
 
 namespace IsoDT.Props.C09
-open IsoDT IsoDT.Model IsoDT.Lemmas
+open IsoDT IsoDT.Model IsoDT.Lemmas IsoDT.Lemmas.ConstructTrunc
 open IsoDT.Spec (TZ)
 
 /-- **The truncated object holds exactly what it was given** (nothing is defaulted, the year is stored
